@@ -55,7 +55,21 @@ def run(chk, prop, reqs, label, key_extra=None):
         herr = [e for e in events if e["ev"] == "HarnessError"]
         if herr:
             raise vlib.Machinery("builtin worker error: %s\n%s" % (herr[0]["error"], herr[0]["tb"]))
-        events.sort(key=lambda e: e["tid"])
+        getw = sorted([e for e in events if e["ev"] == "GetW"], key=lambda e: e["tid"])
+        events = sorted([e for e in events if e["ev"] != "GetW"], key=lambda e: e["tid"])
+        if getw:
+            v = vlib.validate_trace("WeightsTrace", getw, timeout=3000, heap="3g")
+            chk.cov["traces_validated_against_impl"] += len(getw)
+            chk.notes.setdefault("trace_runs", []).append({"label": label + " (mesh weights)", "traces": len(getw),
+                                                            "wall_s": round(v["wall_s"], 1)})
+            bytid = {e["tid"]: e for e in events}
+            for tid, line, clause, detail in v["rejects"]:
+                g = getw[line - 1]
+                e = bytid.get(tid, {})
+                chk.violation({"clause": "mesh-" + clause, "model": g["model"], "class": g["q"]["type"], "dim": g["dim"]},
+                              {"scenario": {"tid": tid, "model": g["model"], "pars": e.get("pars"), "cutoff": float(e.get("cutoff", 0.0)),
+                                            "dim": g["dim"], "mode": e.get("mode", 0)},
+                               "clause": clause, "detail": detail[:2000], "request": g["q"]})
         B = 400
         for i in range(0, len(events), B):
             evs = events[i:i + B]
